@@ -12,10 +12,14 @@ CONSTANTS
   OpsPerClient = 2
   Allowed <- AllowWait
   WithTicker = FALSE
-  FixD2 = FALSE
+  Thresh = 30
+  AdvSteps = {1}
+  StallOnly = FALSE
+  Door = FALSE
+  FixD2 = TRUE
   FixD6 = TRUE
-  FixD7 = FALSE
-  FixD16 = FALSE
+  FixD7 = TRUE
+  FixD16 = TRUE
 VIEW view
 INVARIANTS TypeOK NoBadC20 NotifInv
 CHECK_DEADLOCK TRUE
